@@ -13,9 +13,9 @@ Iso8601/Ext.vos Iso8601/Ext.vok Iso8601/Ext.required_vos: Iso8601/Ext.v Base/GoI
 Generated/Iso8601Gen.vo Generated/Iso8601Gen.glob Generated/Iso8601Gen.v.beautified Generated/Iso8601Gen.required_vo: Generated/Iso8601Gen.v Base/GoInt.vo Iso8601/Ext.vo
 Generated/Iso8601Gen.vio: Generated/Iso8601Gen.v Base/GoInt.vio Iso8601/Ext.vio
 Generated/Iso8601Gen.vos Generated/Iso8601Gen.vok Generated/Iso8601Gen.required_vos: Generated/Iso8601Gen.v Base/GoInt.vos Iso8601/Ext.vos
-Extract/Extract.vo Extract/Extract.glob Extract/Extract.v.beautified Extract/Extract.required_vo: Extract/Extract.v Base/GoInt.vo Iso8601/Ext.vo Generated/Iso8601Gen.vo Iso8601/Spec.vo Generated/AsmAsciiGen.vo Ascii/AsmTotal.vo Generated/AsciiGen.vo Ascii/Spec.vo Proto/Ext.vo Generated/ProtoGen.vo Proto/Model.vo Proto/PrimSpec.vo Proto/Spec.vo Json/Ext.vo Generated/JsonParseGen.vo Json/Grammar.vo Json/Spec.vo Thrift/Model.vo Thrift/Spec.vo Json/StreamModel.vo
-Extract/Extract.vio: Extract/Extract.v Base/GoInt.vio Iso8601/Ext.vio Generated/Iso8601Gen.vio Iso8601/Spec.vio Generated/AsmAsciiGen.vio Ascii/AsmTotal.vio Generated/AsciiGen.vio Ascii/Spec.vio Proto/Ext.vio Generated/ProtoGen.vio Proto/Model.vio Proto/PrimSpec.vio Proto/Spec.vio Json/Ext.vio Generated/JsonParseGen.vio Json/Grammar.vio Json/Spec.vio Thrift/Model.vio Thrift/Spec.vio Json/StreamModel.vio
-Extract/Extract.vos Extract/Extract.vok Extract/Extract.required_vos: Extract/Extract.v Base/GoInt.vos Iso8601/Ext.vos Generated/Iso8601Gen.vos Iso8601/Spec.vos Generated/AsmAsciiGen.vos Ascii/AsmTotal.vos Generated/AsciiGen.vos Ascii/Spec.vos Proto/Ext.vos Generated/ProtoGen.vos Proto/Model.vos Proto/PrimSpec.vos Proto/Spec.vos Json/Ext.vos Generated/JsonParseGen.vos Json/Grammar.vos Json/Spec.vos Thrift/Model.vos Thrift/Spec.vos Json/StreamModel.vos
+Extract/Extract.vo Extract/Extract.glob Extract/Extract.v.beautified Extract/Extract.required_vo: Extract/Extract.v Base/GoInt.vo Iso8601/Ext.vo Generated/Iso8601Gen.vo Iso8601/Spec.vo Generated/AsmAsciiGen.vo Ascii/AsmTotal.vo Generated/AsciiGen.vo Ascii/Spec.vo Proto/Ext.vo Generated/ProtoGen.vo Proto/Model.vo Proto/PrimSpec.vo Proto/Spec.vo Json/Ext.vo Generated/JsonParseGen.vo Json/Grammar.vo Json/Spec.vo Thrift/Model.vo Thrift/Spec.vo Json/StreamModel.vo Json/StateSpec.vo
+Extract/Extract.vio: Extract/Extract.v Base/GoInt.vio Iso8601/Ext.vio Generated/Iso8601Gen.vio Iso8601/Spec.vio Generated/AsmAsciiGen.vio Ascii/AsmTotal.vio Generated/AsciiGen.vio Ascii/Spec.vio Proto/Ext.vio Generated/ProtoGen.vio Proto/Model.vio Proto/PrimSpec.vio Proto/Spec.vio Json/Ext.vio Generated/JsonParseGen.vio Json/Grammar.vio Json/Spec.vio Thrift/Model.vio Thrift/Spec.vio Json/StreamModel.vio Json/StateSpec.vio
+Extract/Extract.vos Extract/Extract.vok Extract/Extract.required_vos: Extract/Extract.v Base/GoInt.vos Iso8601/Ext.vos Generated/Iso8601Gen.vos Iso8601/Spec.vos Generated/AsmAsciiGen.vos Ascii/AsmTotal.vos Generated/AsciiGen.vos Ascii/Spec.vos Proto/Ext.vos Generated/ProtoGen.vos Proto/Model.vos Proto/PrimSpec.vos Proto/Spec.vos Json/Ext.vos Generated/JsonParseGen.vos Json/Grammar.vos Json/Spec.vos Thrift/Model.vos Thrift/Spec.vos Json/StreamModel.vos Json/StateSpec.vos
 Iso8601/Spec.vo Iso8601/Spec.glob Iso8601/Spec.v.beautified Iso8601/Spec.required_vo: Iso8601/Spec.v Base/GoInt.vo Iso8601/Ext.vo Generated/Iso8601Gen.vo
 Iso8601/Spec.vio: Iso8601/Spec.v Base/GoInt.vio Iso8601/Ext.vio Generated/Iso8601Gen.vio
 Iso8601/Spec.vos Iso8601/Spec.vok Iso8601/Spec.required_vos: Iso8601/Spec.v Base/GoInt.vos Iso8601/Ext.vos Generated/Iso8601Gen.vos
@@ -127,9 +127,21 @@ Properties/C02.vos Properties/C02.vok Properties/C02.required_vos: Properties/C0
 Json/StreamModel.vo Json/StreamModel.glob Json/StreamModel.v.beautified Json/StreamModel.required_vo: Json/StreamModel.v Base/GoInt.vo Generated/AsmAsciiGen.vo Ascii/AsmTotal.vo Generated/AsciiGen.vo Json/Ext.vo Generated/JsonParseGen.vo
 Json/StreamModel.vio: Json/StreamModel.v Base/GoInt.vio Generated/AsmAsciiGen.vio Ascii/AsmTotal.vio Generated/AsciiGen.vio Json/Ext.vio Generated/JsonParseGen.vio
 Json/StreamModel.vos Json/StreamModel.vok Json/StreamModel.required_vos: Json/StreamModel.v Base/GoInt.vos Generated/AsmAsciiGen.vos Ascii/AsmTotal.vos Generated/AsciiGen.vos Json/Ext.vos Generated/JsonParseGen.vos
+Json/StateSpec.vo Json/StateSpec.glob Json/StateSpec.v.beautified Json/StateSpec.required_vo: Json/StateSpec.v Base/GoInt.vo Generated/AsmAsciiGen.vo Ascii/AsmTotal.vo Generated/AsciiGen.vo Json/Ext.vo Generated/JsonParseGen.vo Json/Grammar.vo Json/StreamModel.vo
+Json/StateSpec.vio: Json/StateSpec.v Base/GoInt.vio Generated/AsmAsciiGen.vio Ascii/AsmTotal.vio Generated/AsciiGen.vio Json/Ext.vio Generated/JsonParseGen.vio Json/Grammar.vio Json/StreamModel.vio
+Json/StateSpec.vos Json/StateSpec.vok Json/StateSpec.required_vos: Json/StateSpec.v Base/GoInt.vos Generated/AsmAsciiGen.vos Ascii/AsmTotal.vos Generated/AsciiGen.vos Json/Ext.vos Generated/JsonParseGen.vos Json/Grammar.vos Json/StreamModel.vos
+Json/TokenProofs.vo Json/TokenProofs.glob Json/TokenProofs.v.beautified Json/TokenProofs.required_vo: Json/TokenProofs.v Base/GoInt.vo Generated/AsmAsciiGen.vo Ascii/AsmTotal.vo Generated/AsciiGen.vo Json/Ext.vo Generated/JsonParseGen.vo Json/Grammar.vo Json/Spec.vo Json/ValidProofs.vo Json/StreamModel.vo Json/StateSpec.vo
+Json/TokenProofs.vio: Json/TokenProofs.v Base/GoInt.vio Generated/AsmAsciiGen.vio Ascii/AsmTotal.vio Generated/AsciiGen.vio Json/Ext.vio Generated/JsonParseGen.vio Json/Grammar.vio Json/Spec.vio Json/ValidProofs.vio Json/StreamModel.vio Json/StateSpec.vio
+Json/TokenProofs.vos Json/TokenProofs.vok Json/TokenProofs.required_vos: Json/TokenProofs.v Base/GoInt.vos Generated/AsmAsciiGen.vos Ascii/AsmTotal.vos Generated/AsciiGen.vos Json/Ext.vos Generated/JsonParseGen.vos Json/Grammar.vos Json/Spec.vos Json/ValidProofs.vos Json/StreamModel.vos Json/StateSpec.vos
+Json/StreamProofs.vo Json/StreamProofs.glob Json/StreamProofs.v.beautified Json/StreamProofs.required_vo: Json/StreamProofs.v Base/GoInt.vo Generated/AsmAsciiGen.vo Ascii/AsmTotal.vo Generated/AsciiGen.vo Json/Ext.vo Generated/JsonParseGen.vo Json/Grammar.vo Json/Spec.vo Json/ValidProofs.vo Json/StreamModel.vo Json/StateSpec.vo
+Json/StreamProofs.vio: Json/StreamProofs.v Base/GoInt.vio Generated/AsmAsciiGen.vio Ascii/AsmTotal.vio Generated/AsciiGen.vio Json/Ext.vio Generated/JsonParseGen.vio Json/Grammar.vio Json/Spec.vio Json/ValidProofs.vio Json/StreamModel.vio Json/StateSpec.vio
+Json/StreamProofs.vos Json/StreamProofs.vok Json/StreamProofs.required_vos: Json/StreamProofs.v Base/GoInt.vos Generated/AsmAsciiGen.vos Ascii/AsmTotal.vos Generated/AsciiGen.vos Json/Ext.vos Generated/JsonParseGen.vos Json/Grammar.vos Json/Spec.vos Json/ValidProofs.vos Json/StreamModel.vos Json/StateSpec.vos
 Properties/C11.vo Properties/C11.glob Properties/C11.v.beautified Properties/C11.required_vo: Properties/C11.v Base/GoInt.vo Json/StreamModel.vo
 Properties/C11.vio: Properties/C11.v Base/GoInt.vio Json/StreamModel.vio
 Properties/C11.vos Properties/C11.vok Properties/C11.required_vos: Properties/C11.v Base/GoInt.vos Json/StreamModel.vos
 Properties/C17.vo Properties/C17.glob Properties/C17.v.beautified Properties/C17.required_vo: Properties/C17.v Base/GoInt.vo Json/StreamModel.vo
 Properties/C17.vio: Properties/C17.v Base/GoInt.vio Json/StreamModel.vio
 Properties/C17.vos Properties/C17.vok Properties/C17.required_vos: Properties/C17.v Base/GoInt.vos Json/StreamModel.vos
+Json/AppendModel.vo Json/AppendModel.glob Json/AppendModel.v.beautified Json/AppendModel.required_vo: Json/AppendModel.v Base/GoInt.vo
+Json/AppendModel.vio: Json/AppendModel.v Base/GoInt.vio
+Json/AppendModel.vos Json/AppendModel.vok Json/AppendModel.required_vos: Json/AppendModel.v Base/GoInt.vos
